@@ -70,3 +70,78 @@ Proof.
   rewrite Ep. generalize (pr_skip p) as sk. clear Ep. clear p. generalize acc0 as a. induction H as [|e l He Hl IH]; intros a sk; cbn [combine fold_left]; [reflexivity|].
   destruct sk as [|s sk]; cbn [combine fold_left]; [reflexivity|]. rewrite (entity_step_plain cm tz filter preserve a e s He). apply IH.
 Qed.
+
+(* ================= nyctalerts: alerts without NYCT data and without an elevator id pass through unchanged ================= *)
+From GV Require Import Gen.NyctTables.
+Definition alert_plain (add_meta : bool) (e : entity) : Prop :=
+  match e_tu e, e_vp e, e_alert e with
+  | None, None, Some a =>
+    elev_match (la (e_id e)) = None /\ has_prefix "lmm:planned_work" (e_id e) = false /\ has_prefix "lmm:alert" (e_id e) = false /\
+    Forall (fun s => priority_of s = None) (wa_informed a) /\ (add_meta = false \/ wa_metadata a = None)
+  | _, _, _ => True
+  end.
+(* what the extension does to such an alert on the wire: only an absent cause becomes an explicit UNKNOWN_CAUSE *)
+Definition norm_entity (e : entity) : entity :=
+  match e_tu e, e_vp e, e_alert e with
+  | None, None, Some a => {| e_id := e_id e; e_tu := None; e_vp := None;
+                             e_alert := Some (set_alert a (wa_informed a) (Some (odflt Alert_UNKNOWN_CAUSE (wa_cause a))) (wa_effect a) (wa_desc a)) |}
+  | _, _, _ => e
+  end.
+Lemma mercury_loop_plain skip_opt sels eff : Forall (fun s => priority_of s = None) sels -> mercury_loop skip_opt sels eff = (eff, false).
+Proof. induction 1 as [|s l Hs Hl IH]; cbn; [reflexivity|]. now rewrite Hs. Qed.
+Lemma set_nth_middle {A} (x y : A) suf : forall l1 n, List.length l1 = n -> set_nth n x (l1 ++ y :: suf) = l1 ++ x :: suf.
+Proof. induction l1 as [|z l1 IH]; intros n <-; cbn; [reflexivity|]. now rewrite IH. Qed.
+
+Theorem pre_pass_alerts_plain policy station_ids skip_opt add_meta m : Forall (alert_plain add_meta) (fm_entities m) ->
+  let p := pre_pass (NyctAlerts policy station_ids skip_opt add_meta) m in
+  pr_entities p = map norm_entity (fm_entities m) /\ pr_skip p = map (fun _ => false) (fm_entities m).
+Proof.
+  intros H. cbn zeta. unfold pre_pass.
+  (* generalised over the processed prefix: entities = map norm prefix ++ suffix *)
+  assert (G : forall suf pre st,
+    pr_entities st = map norm_entity pre ++ suf -> pr_skip st = map (fun _ => false) (pre ++ suf) -> pr_elev st = [] ->
+    Forall (alert_plain add_meta) suf ->
+    let st' := fold_left (pre_step (NyctAlerts policy station_ids skip_opt add_meta) (fm_ts m)) (enumerate (List.length pre) suf) st in
+    pr_entities st' = map norm_entity (pre ++ suf) /\ pr_skip st' = map (fun _ => false) (pre ++ suf)).
+  { induction suf as [|e suf IH]; intros pre st He Hs Hel Hp; cbn [enumerate fold_left].
+    - rewrite app_nil_r in *. split; assumption.
+    - inversion Hp as [|? ? Hpe Hps]; subst.
+      set (st1 := pre_step (NyctAlerts policy station_ids skip_opt add_meta) (fm_ts m) st (List.length pre, e)).
+      assert (S1 : pr_entities st1 = map norm_entity (pre ++ [e]) ++ suf /\ pr_skip st1 = map (fun _ => false) ((pre ++ [e]) ++ suf) /\ pr_elev st1 = []).
+      { unfold st1, pre_step, alert_plain, norm_entity in *. rewrite map_app. cbn [map].
+        destruct (e_tu e); [rewrite <- !app_assoc; cbn; repeat split; assumption|].
+        destruct (e_vp e); [rewrite <- !app_assoc; cbn; repeat split; assumption|].
+        destruct (e_alert e) as [a|]; [|rewrite <- !app_assoc; cbn; repeat split; assumption].
+        destruct Hpe as (P1 & P2 & P3 & P4 & P5). rewrite P1, P2, P3, (mercury_loop_plain skip_opt _ _ P4).
+        assert (Ed : (if add_meta then match wa_metadata a with Some js => wa_desc a ++ [(js, metadata_language)] | None => wa_desc a end else wa_desc a) = wa_desc a)
+          by (destruct P5 as [-> | ->]; [reflexivity|destruct add_meta; reflexivity]).
+        rewrite Ed. cbn [pr_entities pr_skip pr_elev]. rewrite <- !app_assoc. cbn [app]. repeat split; [| |exact Hel].
+        + rewrite He. apply set_nth_middle. apply map_length.
+        + rewrite Hs. rewrite !map_app. cbn [map]. apply set_nth_middle. apply map_length. }
+      destruct S1 as (A & B & C).
+      specialize (IH (pre ++ [e]) st1 A B C Hps). rewrite app_length in IH. cbn [List.length] in IH. rewrite Nat.add_1_r in IH.
+      rewrite <- app_assoc in IH. exact IH. }
+  apply (G (fm_entities m) []); [reflexivity|reflexivity|reflexivity|exact H].
+Qed.
+
+Lemma parse_alert_norm cm tz id a :
+  parse_alert cm tz id (set_alert a (wa_informed a) (Some (odflt Alert_UNKNOWN_CAUSE (wa_cause a))) (wa_effect a) (wa_desc a)) = parse_alert cm tz id a.
+Proof. unfold parse_alert, set_alert. cbn. destruct (wa_cause a); reflexivity. Qed.
+Lemma entity_step_norm cm tz policy station_ids skip_opt add_meta acc e :
+  entity_step cm tz (NyctAlerts policy station_ids skip_opt add_meta) acc (norm_entity e, false) = entity_step cm tz NoExt acc (e, false).
+Proof.
+  unfold entity_step, norm_entity. destruct (e_tu e) as [tu|] eqn:Et.
+  - rewrite Et. unfold parse_trip_update. f_equal.
+  - destruct (e_vp e) as [vp|] eqn:Ev; [rewrite Et, Ev; reflexivity|]. destruct (e_alert e) as [a|] eqn:Ea; [|rewrite Et, Ev, Ea; reflexivity].
+    cbn [e_tu e_vp e_alert e_id]. now rewrite parse_alert_norm.
+Qed.
+Theorem nyctalerts_transparent cm tz policy station_ids skip_opt add_meta m : Forall (alert_plain add_meta) (fm_entities m) ->
+  parse_message cm tz (NyctAlerts policy station_ids skip_opt add_meta) m = parse_message cm tz NoExt m.
+Proof.
+  intros H. unfold parse_message. destruct (pre_pass_alerts_plain policy station_ids skip_opt add_meta m H) as [E1 E2]. cbn zeta in E1, E2. rewrite E1, E2.
+  assert (E0 : pr_entities (pre_pass NoExt m) = fm_entities m /\ pr_skip (pre_pass NoExt m) = map (fun _ => false) (fm_entities m)).
+  { unfold pre_pass. assert (G0 : forall l i st, fold_left (pre_step NoExt (fm_ts m)) (enumerate i l) st = st) by (induction l as [|e l IH]; intros i st; cbn; auto). rewrite G0. split; reflexivity. }
+  destruct E0 as [F1 F2]. rewrite F1, F2. f_equal. clear.
+  generalize acc0 as a. induction (fm_entities m) as [|e l IH]; intros a; cbn [map combine fold_left]; [reflexivity|].
+  rewrite entity_step_norm. apply IH.
+Qed.
